@@ -18,12 +18,19 @@ FUNCTIONS = ["wannierberri.w90files.eig.EIG.to_w90_file/from_w90_file", "wannier
 BOUNDS = dict(quick=dict(field_overflow="EIG NK<=2, NB<=2 and AMN with 1-2 entries: every choice of at most one '{:w.pf}' field that fills/exceeds its width (N fields -> N+1 paths)", mmn_neighbour_order="MMN objects built from arrays (identity bk_reorder) and MMN objects read from a file whose neighbour order is any permutation "
                          "(symbolic, NNB=2,3; rotated per k-point) of the BKVectors order", NK="1..2 (text; mmn on k-grids 1x1x1, 2x1x1, 1x2x1), 1 and 3 (npz)", NB="1..3", NW="1..2", NNB="2", data="symbolic real / complex",
                          stored_kpoints="every non-empty subset of range(NK) for npz (given as dict and as list with None), all k for the text files"),
-              thorough=dict(field_overflow="as quick", mmn_neighbour_order="as quick, NNB=2,3,4 (all 24 orders)", NK="1..4 (text; mmn also on 2x2x1, 3x1x1, 2x1x2), 1..4 (npz)", NB="1..4", NW="1..3", NNB="2, 4", data="symbolic real / complex",
-                            stored_kpoints="every non-empty subset of range(NK) for npz (dict and sparse list), all k for the text files"))
+              thorough=dict(field_overflow="EIG up to NK=6 NB=6 / NK=11 NB=2 and AMN up to NK=2 NB=4 NW=3: every choice of at most one '{:w.pf}' field that fills/exceeds its width",
+                            mmn_neighbour_order="identity; every order of NNB=2..6 b-vectors and all 5040 orders of 7 (one symbolic permutation rotated per k-point); an independent permutation "
+                            "for every k-point (NK=2 NNB=3: 36, NK=2 NNB=4: 576, NK=3 NNB=3: 216, NK=3 NNB=2: 8 combinations)",
+                            NK="1..6, 11, 101 (eig/amn); mmn k-grids 1x1x1 .. 3x2x2 and 11x1x1 (1..12 k-points, 2-digit k-point / neighbour numbers, G-vectors with -1/+1/+-2 components)",
+                            NB="1..6, 11, 12, 101", NW="1..4, 11 (NW != NB included)", NNB="2, 3, 4, 5, 6, 7, 8 (bcc), 12 (fcc)",
+                            mmn_reader_chunks="npar = default, 1, 2, 3, 5, 7: files shorter than, equal to and not a multiple of the 4*npar-block chunk, up to 144 blocks",
+                            data="symbolic real / complex", stored_kpoints="every non-empty subset of range(NK) for NK=1..7 (dict and sparse list), selected subsets of NK=12 (keys data_1 / data_10 / data_11)"))
 EXPLANATION = ("The real writers run on symbolic data: format(SymC, spec) leaves a token in the in-memory file, the real readers parse the token file "
                "(str.split / loops / reshapes / transposes run unchanged) and each token read back is a fresh real within half a unit of the last printed digit "
                "(the value itself for repr).  z3 decides, per entry, that the value read at [ik, ...] is the one written at [ik, ...] to printed precision, and that equals() holds.  "
-               "npz: an in-memory store with numpy's savez/load contract; identity of every attribute after as_dict/keydic/from_dict is decided by z3.")
+               "npz: an in-memory store with numpy's savez/load contract; identity of every attribute after as_dict/keydic/from_dict is decided by z3.  "
+               "MMN objects with a non-trivial bk_reorder come from the real reader applied to a token file whose neighbour order is a symbolic permutation (per file or per k-point); "
+               "the opt-in field-overflow model renders one fixed-point field per path without its leading blanks.")
 ASSUMPTIONS = ["field-overflow cases: at most one fixed-point field per file fills or exceeds its width (x >= 10^(w-p-2) or x <= -10^(w-p-3) for '{:w.pf}'); the other cases make no "
                "assumption on magnitudes but render every number inside its field",
                "the same BKVectors object is given to MMN.to_w90_file and to the reader",
@@ -282,22 +289,28 @@ def mmn_write(mmn, seed, bkvec):
     return mmn.to_w90_file(seed)
 
 
-def case_mmn(rec, mp_grid, bk_grid, NBs):
+def case_mmn(rec, mp_grid, bk_grid, NBs, npar=None):
     for NB in NBs:
-        _mmn(rec, mp_grid, bk_grid, NB)
+        _mmn(rec, mp_grid, bk_grid, NB, npar)
 
 
-def _mmn(rec, mp_grid, bk_grid, NB):
+def case_mmn_multi(rec, items):
+    for mp_grid, bk_grid, NBs in items:
+        case_mmn(rec, mp_grid, bk_grid, NBs)
+
+
+def _mmn(rec, mp_grid, bk_grid, NB, npar=None):
+    """npar: the reader converts the file in chunks of 4*npar blocks (default: the cpu count at import time)"""
     fs, p = install()
     bkvec = make_bkvec(mp_grid, bk_grid)
     NK, NNB = bkvec.NK, bkvec.NNB
     M = symvec("M", (NK, NNB, NB, NB), real=False)
 
     def body(rec):
-        rec.witness = lambda env: dict(kind="mmn", mp_grid=list(mp_grid), bk_grid=[list(b) for b in bk_grid], data=env.arr(M))
+        rec.witness = lambda env: dict(kind="mmn", mp_grid=list(mp_grid), bk_grid=[list(b) for b in bk_grid], npar=npar, data=env.arr(M))
         mmn = M_MMN.MMN(data={ik: M[ik].copy() for ik in range(NK)}, NK=NK)
         mmn_write(mmn, SEED, bkvec)
-        back = M_MMN.MMN.from_w90_file(SEED, bkvec=bkvec)
+        back = M_MMN.MMN.from_w90_file(SEED, bkvec=bkvec, **({} if npar is None else dict(npar=npar)))
         rec.concrete("NK, NB, NNB", (back.NK, back.NB, back.NNB, sorted(back.data)) == (NK, NB, NNB, list(range(NK))), f"{back.NK} {back.NB} {back.NNB}",
                      key="MMN write->read changes NK/NB/NNB")
         all_close(rec, "mmn[ik][ib,m,n] read back exactly (repr)", np.array([back.data[ik] for ik in range(NK)]), M, "", key="MMN write->read value differs from the written entry")
@@ -329,20 +342,26 @@ def orders_from_perm(perm, NK):
     return [[perm[(j + ik) % n] for j in range(n)] for ik in range(NK)]
 
 
-def case_mmn_reordered(rec, mp_grid, bk_grid, NB):
+def case_mmn_reordered(rec, mp_grid, bk_grid, NB, independent=False, first=None):
     """MMN object with a non-trivial bk_reorder: obtained by the real reader from a file whose neighbour order is an arbitrary (symbolic) permutation
     of the BKVectors order; then write -> read must give the overlaps back at the same (k, b-vector) pairs"""
     fs, p = install()
     bkvec = make_bkvec(mp_grid, bk_grid)
     NK, NNB = bkvec.NK, bkvec.NNB
     M = symvec("M", (NK, NNB, NB, NB), real=False)
-    pv = [zvar(f"perm_{i}") for i in range(NNB)]
+    # one symbolic permutation rotated per k-point, or (independent) an own symbolic permutation for every k-point (includes partially ordered files)
+    pvs = [[zvar(f"perm{k}_{i}") for i in range(NNB)] for k in range(NK if independent else 1)]
 
     def body(rec):
-        Ctx.cur.assume(*[z3.Or(*[v == j for j in range(NNB)]) for v in pv], z3.Distinct(*pv))
-        perm = [next(j for j in range(NNB) if j == NNB - 1 or bool(SymB(pv[i] == j))) for i in range(NNB)]
-        rec.witness = lambda env: dict(kind="mmn_reordered", mp_grid=list(mp_grid), bk_grid=[list(b) for b in bk_grid], perm=[int(env[f"perm_{i}"]) for i in range(NNB)], data=env.arr(M))
-        order = orders_from_perm(perm, NK)
+        perms = []
+        if first is not None:
+            Ctx.cur.assume(pvs[0][0] == first)
+        for pv in pvs:
+            Ctx.cur.assume(*[z3.Or(*[v == j for j in range(NNB)]) for v in pv], z3.Distinct(*pv))
+            perms.append([next(j for j in range(NNB) if j == NNB - 1 or bool(SymB(pv[i] == j))) for i in range(NNB)])
+        rec.witness = lambda env: dict(kind="mmn_reordered", mp_grid=list(mp_grid), bk_grid=[list(b) for b in bk_grid], independent=independent,
+                                       perms=[[int(env[f"perm{k}_{i}"]) for i in range(NNB)] for k in range(len(pvs))], data=env.arr(M))
+        order = perms if independent else orders_from_perm(perms[0], NK)
         write_mmn_by_hand(fs.open, "mem/src", [M[ik] for ik in range(NK)], bkvec, order)
         mmn = M_MMN.MMN.from_w90_file("mem/src", bkvec=bkvec)
         all_close(rec, "reader: mmn[ik][ib] belongs to the b-vector ib of the BKVectors object whatever the order in the file", np.array([mmn.data[ik] for ik in range(NK)]), M, "",
@@ -579,6 +598,60 @@ def cases(tier, seed):
     out.append(Case("WannierData.write eig+amn+mmn NB=2 NW=1", case_container_text, dict(NB=2, NW=1)))
     if not q:
         out.append(Case("WannierData.write eig+amn+mmn NB=3 NW=2", case_container_text, dict(NB=3, NW=2)))
+    if not q:
+        T = 3000
+        # more k-points / bands / projections (projections != bands), multi-digit band, projection and k-point indices
+        out.append(Case("eig text NK=6,11 NB=6,12", case_eig, dict(sizes=[(6, 6), (6, 12), (11, 6), (11, 12)]), timeout=T))
+        out.append(Case("eig text 3-digit indices NK=101 NB=2 / NK=2 NB=101", case_eig, dict(sizes=[(101, 2), (2, 101)]), timeout=T))
+        for NK, NW, NBl in ((5, 4, (4, 6)), (2, 4, (5, 12)), (11, 2, (3, 5)), (3, 11, (11, 12)), (2, 1, (101,)), (101, 1, (2,))):
+            out.append(Case(f"amn text NK={NK} NW={NW} NB={list(NBl)}", case_amn, dict(sizes=[(NK, NB, NW) for NB in NBl]), timeout=T))
+        # more k-points and neighbours: 3D grids with 6 / 8 / 12 b-vectors, 9..12 k-points (2-digit k-point and neighbour numbers), G-vectors with negative components
+        cube6 = [(1, 0, 0), (-1, 0, 0), (0, 1, 0), (0, -1, 0), (0, 0, 1), (0, 0, -1)]
+        bcc8 = [(a, b, c) for a in (1, -1) for b in (1, -1) for c in (1, -1)]
+        fcc12 = [v for a in (1, -1) for b in (1, -1) for v in ((a, b, 0), (a, 0, b), (0, a, b))]
+        for mp, bkg, NBl in (((2, 2, 2), cube6, (1, 2, 3)), ((2, 2, 2), bcc8, (1, 2)), ((3, 3, 1), [(1, 0, 0), (0, 1, 0), (-1, 0, 0), (0, -1, 0)], (1, 2, 4)), ((11, 1, 1), [(1, 0, 0), (-1, 0, 0)], (1, 3)),
+                            ((3, 2, 2), fcc12, (1, 2)), ((1, 1, 4), [(0, 0, 1), (0, 0, -1), (0, 0, 2), (0, 0, -2)], (2, 5))):
+            out.append(Case(f"mmn text mp_grid={mp} NNB={len(bkg)} NB={NBl}", case_mmn, dict(mp_grid=mp, bk_grid=bkg, NBs=NBl), timeout=T))
+        # permuted neighbour lists: all 120 orders of 5 b-vectors, all 720 orders of 6; an independent permutation for every k-point (36 / 576 combinations)
+        out.append(Case("mmn text, read from a file with permuted neighbour order (all 5! orders) mp_grid=(2, 2, 2) NNB=5 NB=2", case_mmn_reordered,
+                        dict(mp_grid=(2, 2, 2), bk_grid=cube6[:5], NB=2), timeout=T))
+        out.append(Case("mmn text, read from a file with permuted neighbour order (all 6! orders) mp_grid=(2, 1, 3) NNB=6 NB=1", case_mmn_reordered,
+                        dict(mp_grid=(2, 1, 3), bk_grid=cube6, NB=1), timeout=T))
+        for mp, bkg, NB in (((2, 1, 1), [(1, 0, 0), (-1, 0, 0), (0, 1, 0)], 2), ((1, 2, 1), [(1, 0, 0), (0, 1, 0), (-1, 0, 0), (0, -1, 0)], 1), ((1, 1, 3), [(0, 0, 1), (0, 0, -1)], 3)):
+            out.append(Case(f"mmn text, every k-point lists its neighbours in its own order (all combinations) mp_grid={mp} NNB={len(bkg)} NB={NB}", case_mmn_reordered,
+                            dict(mp_grid=mp, bk_grid=bkg, NB=NB, independent=True), timeout=T))
+        for first in range(6):
+            out.append(Case(f"mmn text, read from a file with permuted neighbour order (the 120 orders starting with b-vector #{first}) mp_grid=(2, 2, 2) NNB=6 NB=2", case_mmn_reordered,
+                            dict(mp_grid=(2, 2, 2), bk_grid=cube6, NB=2, first=first), timeout=T))
+        seven = cube6 + [(1, 1, 0)]
+        for first in range(7):
+            out.append(Case(f"mmn text, read from a file with permuted neighbour order (the 720 orders starting with b-vector #{first}) mp_grid=(2, 2, 1) NNB=7 NB=1", case_mmn_reordered,
+                            dict(mp_grid=(2, 2, 1), bk_grid=seven, NB=1, first=first), timeout=2 * T))
+        out.append(Case("mmn text mp_grid=(3, 2, 2) NNB=12 NB=3 / mp_grid=(2, 2, 2) NNB=8 NB=3,4", case_mmn_multi, dict(items=[((3, 2, 2), fcc12, (3,)), ((2, 2, 2), bcc8, (3, 4))]), timeout=T))
+        out.append(Case("eig text, one value may fill / overflow its field (NK=6 NB=6)", case_eig, dict(sizes=[(6, 6)], overflow=True), timeout=T))
+        out.append(Case("amn text, one value may fill / overflow its field (NK=2 NB=3 NW=2, NK=2 NB=4 NW=3)", case_amn, dict(sizes=[(2, 3, 2), (2, 4, 3)], overflow=True), timeout=T))
+        for kind in ("eig", "mmn+", "amn+"):
+            out.append(Case(f"npz {kind} NK=7 every k-point subset", case_npz, dict(kind=kind, combos=[(7, keys) for keys in powerset_keys(7)], NB=3), timeout=T))
+        out.append(Case("mmn text, every k-point lists its neighbours in its own order (all 576 combinations) mp_grid=(2, 1, 1) NNB=4 NB=1", case_mmn_reordered,
+                        dict(mp_grid=(2, 1, 1), bk_grid=[(1, 0, 0), (-1, 0, 0), (0, 1, 0), (0, -1, 0)], NB=1, independent=True), timeout=T))
+        out.append(Case("mmn text, every k-point lists its neighbours in its own order (all 216 combinations) mp_grid=(1, 3, 1) NNB=3 NB=2", case_mmn_reordered,
+                        dict(mp_grid=(1, 3, 1), bk_grid=[(0, 1, 0), (0, -1, 0), (1, 0, 0)], NB=2, independent=True), timeout=T))
+        # chunked conversion in the reader (4*npar blocks at a time): files shorter than, equal to and not a multiple of a chunk
+        for npar, mp, bkg, NBl in ((1, (2, 1, 1), [(1, 0, 0), (-1, 0, 0)], (1, 2)), (1, (3, 1, 1), [(-1, 0, 0), (1, 0, 0)], (2,)), (3, (3, 3, 1), [(1, 0, 0), (0, 1, 0), (-1, 0, 0), (0, -1, 0)], (1, 2)),
+                                   (5, (2, 2, 2), cube6, (2,)), (2, (1, 1, 1), [(1, 0, 0), (-1, 0, 0)], (3,)), (7, (3, 2, 2), fcc12, (1,))):
+            out.append(Case(f"mmn text npar={npar} mp_grid={mp} NNB={len(bkg)} NB={NBl}", case_mmn, dict(mp_grid=mp, bk_grid=bkg, NBs=NBl, npar=npar), timeout=T))
+        # field-overflow model on more fields
+        out.append(Case("eig text, one value may fill / overflow its field (NK=3 NB=4, NK=11 NB=2)", case_eig, dict(sizes=[(3, 4), (11, 2)], overflow=True), timeout=T))
+        out.append(Case("amn text, one value may fill / overflow its field (NK=2 NB=2 NW=2, NK=1 NB=3 NW=2, NK=3 NB=2 NW=1)", case_amn,
+                        dict(sizes=[(2, 2, 2), (1, 3, 2), (3, 2, 1)], overflow=True), timeout=T))
+        out.append(Case("WannierData.write eig+amn+mmn NB=4 NW=3", case_container_text, dict(NB=4, NW=3), timeout=T))
+        for kind in ("eig", "amn+", "mmn+", "spn", "uhu", "shu", "unk", "soc"):
+            out.append(Case(f"npz {kind} NK=5,6 every k-point subset", case_npz, dict(kind=kind, combos=[(NK, keys) for NK in (5, 6) for keys in powerset_keys(NK)],
+                                                                                    NB=2 if kind in ("uhu", "soc") else 4), timeout=T))
+        out.append(Case("npz eig / amn NK=12 (2-digit keys: data_1 vs data_10, data_11) selected subsets", case_npz,
+                        dict(kind="amn+", combos=[(12, list(range(12))), (12, [1, 10, 11]), (12, [0, 1]), (12, [10]), (12, [2, 11])], NB=3), timeout=T))
+        out.append(Case("WannierData npz container NB=4", case_container_npz, dict(NB=4, irr=False), timeout=T))
+        out.append(Case("WannierData npz container NB=3 irreducible", case_container_npz, dict(NB=3, irr=True), timeout=T))
     kinds = ["eig", "amn", "amn+", "mmn", "mmn+", "spn", "uhu", "uiu", "shu", "siu", "unk", "soc"]
     for kind in kinds:
         combos = [(NK, keys) for NK in ((1, 3) if q else (1, 2, 3, 4)) for keys in powerset_keys(NK)]
@@ -633,14 +706,14 @@ def replay(rec):
                 M = fill(unarr(w["data"]), True)
                 bk = make_bkvec(tuple(w["mp_grid"]), [tuple(b) for b in w["bk_grid"]])
                 mmn_write(M_MMN.MMN(data=list(M)), seed, bk)
-                b = M_MMN.MMN.from_w90_file(seed, bkvec=bk, npar=1)
+                b = M_MMN.MMN.from_w90_file(seed, bkvec=bk, npar=w.get("npar") or 1)
                 ex = cmp([b.data[i] for i in range(len(M))], M, 0)
-                return ex > 0, f"MMN shape={M.shape} mp_grid={w['mp_grid']}: excess = {ex:.3e}; written[0,0]={M[0, 0].tolist()} read[0,0]={np.asarray(b.data[0][0]).tolist()}"
+                return ex > 0, f"MMN shape={M.shape} npar={w.get('npar')} mp_grid={w['mp_grid']}: excess = {ex:.3e}; written[0,0]={M[0, 0].tolist()} read[0,0]={np.asarray(b.data[0][0]).tolist()}"
             if w["kind"] == "mmn_reordered":
                 M = fill(unarr(w["data"]), True)
                 bk = make_bkvec(tuple(w["mp_grid"]), [tuple(b) for b in w["bk_grid"]])
-                perm = w["perm"] if sorted(w["perm"]) == list(range(len(w["perm"]))) else list(range(len(w["perm"])))[::-1]
-                order = orders_from_perm(perm, len(M))
+                perms = [pm if sorted(pm) == list(range(len(pm))) else list(range(len(pm)))[::-1] for pm in w["perms"]]
+                order = perms if w.get("independent") else orders_from_perm(perms[0], len(M))
                 write_mmn_by_hand(open, os.path.join(tmp, "src"), list(M), bk, order, fmt=lambda x, spec: repr(float(x)))
                 mmn = M_MMN.MMN.from_w90_file(os.path.join(tmp, "src"), bkvec=bk, npar=1)
                 ex0 = cmp([mmn.data[i] for i in range(len(M))], M, 0)
